@@ -19,7 +19,7 @@ structure GateRow where
   s2 : Int                 -- s², 0 when the gate has no known unitary
   mat : Mat                -- Gaussian-integer numerator of the documented unitary
   tab : List (Bool × List P1)  -- images of X0, Z0 (, X1, Z1); [] when not unitary
-deriving Repr
+deriving Repr, DecidableEq
 
 def P1.idx : P1 → Nat | .I => 0 | .X => 1 | .Y => 2 | .Z => 3
 def P1.ofIdx : Nat → P1 | 0 => .I | 1 => .X | 2 => .Y | _ => .Z
